@@ -331,7 +331,7 @@ PROPS = {
         assumptions=[],
     ),
     "C10": dict(
-        units=["mux", "noise", "qc", "replica", "conv", "leader"],
+        units=["mux", "noise", "qc", "replica", "conv", "leader", "canonical"],
         kani=["std_conv"],
         kani_quick=True,
         level="proof",
@@ -356,7 +356,7 @@ PROPS = {
         assumptions=[],
     ),
     "C09": dict(
-        units=["conv"],
+        units=["conv", "canonical"],
         kani=["std_conv", "phase"],
         kani_quick=True,
         level="proof",
